@@ -147,6 +147,13 @@ impl Property for C19 {
     fn required_features(&self, _tier: Tier) -> Vec<String> {
         ["diagnostics/parse", "diagnostics/analysis", "rendered/parse", "not-in-scope/checked", "feature/error-beyond-first-line", "feature/multibyte-before-error", "analysis-kind/InvalidSymbol", "analysis-kind/NotInScope"].iter().map(|s| s.to_string()).collect()
     }
+    fn supervisor_phase(&self, ctx: &mut Ctx, env: &Env) {
+        if ctx.tier == Tier::Thorough {
+            // diagnostics slice the source text by byte offsets (pest positions, miette rendering): the same
+            // multi-byte inputs under Miri
+            miri_cross_run(ctx, env, "C19", &[MiriPlan { phase: "diagnostics", cases: 320 }], 540);
+        }
+    }
     fn run_case(&self, ctx: &mut Ctx, _phase: &str, idx: u64, rng: &mut Rng) {
         let ex = examples();
         let (src, origin) = match idx % 4 {
